@@ -327,7 +327,7 @@ func runScan(r *hx.Run, cfg hx.Config, rnd *hx.Rand) {
 		UpdateRetention:          2,
 	})
 	if err != nil {
-		r.Fail("", "libvuln.New with a stub store failed: "+err.Error())
+		failW(r, "", "libvuln.New with a stub store failed: "+err.Error())
 		return
 	}
 	ms := realMatchers()
@@ -335,12 +335,12 @@ func runScan(r *hx.Run, cfg hx.Config, rnd *hx.Rand) {
 		ir := coherentIR(rnd)
 		b, err := json.Marshal(ir)
 		if err != nil {
-			r.Fail("", "json.Marshal of a coherent IndexReport failed: "+err.Error())
+			failW(r, "", "json.Marshal of a coherent IndexReport failed: "+err.Error())
 			continue
 		}
 		var rt claircore.IndexReport
 		if err := json.Unmarshal(b, &rt); err != nil {
-			r.Fail("", "a coherent IndexReport does not decode: "+err.Error()+" json="+trunc(string(b)))
+			failW(r, "", "a coherent IndexReport does not decode: "+err.Error()+" json="+trunc(string(b)))
 			continue
 		}
 		// the protocol sees the same report: its records, by the model and by the real IndexRecords
@@ -358,11 +358,11 @@ func runScan(r *hx.Run, cfg hx.Config, rnd *hx.Rand) {
 			r.Count("scan:" + e1 + "/" + e2)
 		}
 		if e1 == "panic" || e2 == "panic" || e1 == "hang" || e2 == "hang" {
-			r.Fail("", "libvuln.Scan "+e1+"/"+e2+" on a coherent report: json="+trunc(string(b)))
+			failW(r, "", "libvuln.Scan "+e1+"/"+e2+" on a coherent report: json="+trunc(string(b)))
 			continue
 		}
 		if e1 != e2 || d1 != d2 {
-			r.Fail("", "libvuln.Scan of the JSON round trip of a report differs from the scan of the original: "+firstDiff(d1+e1, d2+e2)+" report json="+trunc(string(b)))
+			failW(r, "", "libvuln.Scan of the JSON round trip of a report differs from the scan of the original: "+firstDiff(d1+e1, d2+e2)+" report json="+trunc(string(b)))
 			continue
 		}
 		if e1 == "" {
@@ -374,20 +374,20 @@ func runScan(r *hx.Run, cfg hx.Config, rnd *hx.Rand) {
 		sort.Slice(recA, func(i, j int) bool { return fingerprint(recA[i]) < fingerprint(recA[j]) })
 		sort.Slice(recB, func(i, j int) bool { return fingerprint(recB[i]) < fingerprint(recB[j]) })
 		if len(recA) != len(recB) {
-			r.Fail("", fmt.Sprintf("IndexRecords: %d records of the original, %d of its JSON round trip: json=%s", len(recA), len(recB), trunc(string(b))))
+			failW(r, "", fmt.Sprintf("IndexRecords: %d records of the original, %d of its JSON round trip: json=%s", len(recA), len(recB), trunc(string(b))))
 			continue
 		}
 		st := &fpStore{}
 		for k := range recA {
 			if fingerprint(recA[k]) != fingerprint(recB[k]) {
-				r.Fail("", "an index record changed across JSON: "+firstDiff(fingerprint(recA[k]), fingerprint(recB[k])))
+				failW(r, "", "an index record changed across JSON: "+firstDiff(fingerprint(recA[k]), fingerprint(recB[k])))
 				break
 			}
 			va, _ := st.Get(context.Background(), recA[k:k+1], datastore.GetOpts{})
 			for _, m := range ms {
 				fa, fb := m.Filter(recA[k]), m.Filter(recB[k])
 				if fa != fb {
-					r.Fail("", fmt.Sprintf("matcher %s Filter differs on a record and its JSON round trip: %s", m.Name(), fingerprint(recA[k])))
+					failW(r, "", fmt.Sprintf("matcher %s Filter differs on a record and its JSON round trip: %s", m.Name(), fingerprint(recA[k])))
 				}
 				if fa {
 					r.Count("scan:filter:" + m.Name())
@@ -396,7 +396,7 @@ func runScan(r *hx.Run, cfg hx.Config, rnd *hx.Rand) {
 					oa := hx.Guard(func() string { ok, err := m.Vulnerable(context.Background(), recA[k], v); return fmt.Sprint(ok, err != nil) })
 					ob := hx.Guard(func() string { ok, err := m.Vulnerable(context.Background(), recB[k], v); return fmt.Sprint(ok, err != nil) })
 					if oa != ob {
-						r.Fail("", fmt.Sprintf("matcher %s Vulnerable differs on a record and its JSON round trip (%s vs %s): %s", m.Name(), oa, ob, fingerprint(recA[k])))
+						failW(r, "", fmt.Sprintf("matcher %s Vulnerable differs on a record and its JSON round trip (%s vs %s): %s", m.Name(), oa, ob, fingerprint(recA[k])))
 					}
 				}
 			}
